@@ -437,6 +437,39 @@ def f15(ctx, rid):
         raise core.AnchorLost('constructions of IndexParams with a recreate parameter: %d' % n)
 
 
+def f16(ctx, rid):
+    """the fault of one file is contained in the maintenance pass: where the index dump of the closed blobs runs in a loop, the
+    failure of one blob's dump does not leave the loop (it is logged or accumulated and the next blob is tried).  With `?` on
+    the per-blob dump the first blob whose index file cannot be written ends every pass, and no later blob ever gets its index
+    on disk while that fault lasts"""
+    prog = ctx.prog
+    n = 0
+    for f in prog.fns.values():
+        if not f.file.startswith('src/storage/') or not f.is_coroutine:
+            continue
+        for c in f.calls:
+            if c.bb not in f.reachable() or c.name != 'dump' or not any(t.startswith('blob::core::Blob') for t in prog.resolve(c)):
+                continue
+            heads = core.loop_headers_of(f, c.bb)
+            # the poll loop of the await itself is not the iteration over the blobs: keep loops that contain an iterator step
+            heads = [h for h in heads if any(x.name == 'next' and x.bb in [bb for (hh, body) in f._loops if hh == h for bb in body] for x in f.calls)]
+            if not heads:
+                continue
+            if '::init' in prog.fns[f.id].root:
+                continue      # start-up: a failure is reported to the caller of init, nothing is running yet
+            n += 1
+            key = 'dump-failure-contained|%s' % prog.fns[f.id].root
+            errs = core.err_edge(f, c)
+            rets = [i for i in f.reachable() if f.blocks[i]['t']['k'] == 'return']
+            leave = [r for r in rets if errs and r in f.reach_from(errs, avoid_enter=heads)]
+            if leave:
+                ctx.bad(rid, key, c.where(), 'a failed index dump of one closed blob leaves the loop over the closed blobs (the error is propagated): while that one file cannot be written no later blob gets its index dumped')
+            else:
+                ctx.ok(rid, key, c.where(), 'the failure of one dump is handled inside the loop')
+    if n < 2:
+        raise core.AnchorLost('index dumps inside a loop over the closed blobs: %d' % n)
+
+
 RULES = [
     Rule('C11.X3', 'no err-exit is reachable between a move-out of shared state and its hand-back', x3, 4),
     Rule('C11.L1', 'an error while handling a worker message never ends the maintenance loop (C13.L1 instances)', l1, 4),
@@ -445,6 +478,7 @@ RULES = [
     Rule('C11.F5', 'a record header reaches the index only on the ok edge of its append', f5, 2),
     Rule('C11.F7', 'boolean request-pending / in-progress flags are released on every path including error exits (C12.S8 instances)', f7, 1),
     Rule('C11.F8', 'once the tombstone is in the active blob the delete cannot be reported as failed', f8, 1),
+    Rule('C11.F16', 'a failed index dump of one closed blob does not end the pass over the closed blobs', f16, 2),
     Rule('C11.F9', 'no file of the io layer is opened with O_APPEND (positional writes at reserved offsets must be honoured)', f9, 1),
     Rule('C11.F10', 'a stale index left behind by a failed dump is rejected at the next start (C03.I2 instances)', f10, 2),
     Rule('C11.F11', 'blob ids in use in the work dir or the quarantine dir are never handed out again (C07.H6 instances)', f11, 3),
